@@ -186,8 +186,16 @@ func (c *Collection) CreateColumn(columnName string, column Column) error {
 		capacity = uint32(c.opts.Capacity)
 	}
 
+	// Make sure the column also covers every chunk which was already allocated
+	c.lock.Lock()
+	if n := len(c.commits); n > 0 {
+		if max := commit.Chunk(n - 1).Max(); max > capacity {
+			capacity = max
+		}
+	}
 	column.Grow(capacity)
 	c.cols.Store(columnName, columnFor(columnName, column))
+	c.lock.Unlock()
 
 	// If necessary, create a primary key column
 	if pk, ok := column.(*columnKey); ok {
